@@ -7,6 +7,14 @@ require (
 	github.com/gorilla/websocket v1.5.3
 )
 
-require gitlab.com/c0b/go-ordered-json v0.0.0-20201030195603-febf46534d5a // indirect
+require (
+	github.com/enbility/go-avahi v0.0.0-20240909195612-d5de6b280d7a // indirect
+	github.com/enbility/zeroconf/v2 v2.0.0-20240920094356-be1cae74fda6 // indirect
+	github.com/godbus/dbus/v5 v5.1.0 // indirect
+	github.com/miekg/dns v1.1.62 // indirect
+	gitlab.com/c0b/go-ordered-json v0.0.0-20201030195603-febf46534d5a // indirect
+	golang.org/x/net v0.29.0 // indirect
+	golang.org/x/sys v0.25.0 // indirect
+)
 
 replace github.com/enbility/ship-go => /repo
